@@ -95,7 +95,7 @@ func gen(r *Rng, tier string, emit Emit) {
 	muts := 24   // random mutants per seed
 	bigCases := 5 // cases on the real 16 MiB / 256 KiB artifacts
 	if thorough {
-		rounds, subst, muts, bigCases = 12, 100000, 200, 60
+		rounds, subst, muts, bigCases = 5, 500, 120, 40
 	}
 
 	run := func(s seed, b []byte, withModel bool) {
